@@ -108,7 +108,7 @@ def main():
             if rc_c == 1 and viol and "replay=" in viol[0]:
                 rp = viol[0].split("replay=")[1].strip()
                 rc_r, out_r = sh("./check replay %s" % rp, VERIF)
-                replay_ok = (rc_r == 1) and ("reproduced exactly" in out_r or "hang reproduced" in out_r)
+                replay_ok = (rc_r == 1) and ("reproduced exactly" in out_r or "hang reproduced" in out_r or "process death reproduced" in out_r)
             results[mid] = {
                 "property": prop, "note": note, "compiles": compiles, "suite_passed": passed, "suite_failed": failed,
                 "check_exit": rc_c, "violations": len(viol), "first": first.strip()[:300], "seconds": round(time.time() - t0, 1),
